@@ -414,7 +414,8 @@ def run_cli(c):
     for t in ('rsa-sha2-512', 'rsa-sha2-256', 'ssh-rsa'):
         hk[t] = {'type': 'rsa', 'bits': rsa_bits}
     gex_bits = rng.choice([2048, 3072, 4096])
-    if any(t in peer['key'] for t in ('rsa-sha2-512', 'rsa-sha2-256', 'ssh-rsa')) and rng.random() < .7:
+    can_probe = any(x in peer['kex'] for x in ('curve25519-sha256', 'diffie-hellman-group16-sha512', 'diffie-hellman-group14-sha256', GEX))   # without such a key exchange the tool cannot fetch host keys, so no size is measured
+    if can_probe and any(t in peer['key'] for t in ('rsa-sha2-512', 'rsa-sha2-256', 'ssh-rsa')) and rng.random() < .7:
         want = rng.choice([rsa_bits, rsa_bits, 3072])
         pol['sizes'] = {t: {'hostkey_size': want} for t in ('rsa-sha2-512', 'rsa-sha2-256', 'ssh-rsa')}
         # what the tool will measure (the key exchange used for probing must be one it supports, true for all pools above)
